@@ -455,6 +455,11 @@ def rule_8(ctx):
     want.update({'BB1': ('Boolean', False), 'BB2': ('Boolean', False), 'BB3': ('Boolean', True), 'BB4': ('Boolean', False), 'BB5': ('Boolean', False),
                  'BB6': ('Boolean', True), 'BB7': ('Boolean', True), 'BB8': ('Boolean', True), 'BB9': ('Boolean', False), 'BB10': ('Boolean', True), 'BB11': ('Number', 1),
                  'BB12': ('Boolean', False), 'BB13': ('Boolean', False)})
+    # the same non-numeric texts coerced again and again (dependants, repeated formulas) stay #VALUE!
+    cells.update({'CA1': '=2+"12abc"', 'CA2': '=2*"3 apples"', 'CA3': '=CA1', 'CA4': '=-"Q4b"', 'CA5': '=2+"12abc"', 'CA6': '="3 apples"-1', 'CA7': '=CA2+CA5',
+                  'CA8': '=ISERROR(2+"12abc")', 'CA9': '=-"Q4b"'})
+    want.update({f'CA{i}': ('error', '#VALUE!') for i in (1, 2, 3, 4, 5, 6, 7, 9)})
+    want['CA8'] = ('Boolean', True)
     wb = W.Workbook(ctx, cells)
     n = 0
     for a, w in want.items():
@@ -468,7 +473,29 @@ def rule_8(ctx):
                    f'{a} = {cells[a]} evaluates to {got!r}, expected {w!r}: an Excel error is a value - written as a literal, stored in a cell or '
                    'produced by a formula it propagates (leftmost first) through operators, functions and dependent cells, and only the inspectors '
                    'and IFERROR look at it')
-    ctx.floor(210, 'error cells')
+    # an error value put into an input cell through the API is that error for every formula that reads the cell
+    for code in codes:
+        wbe = W.Workbook(ctx, {'B1': 1, 'C1': '=B1+1', 'C2': '=B1>1', 'C3': '=ISERROR(B1)', 'C4': '=ISNA(B1)', 'C5': '=C1+1', 'C6': '=IF(ISERROR(B1),"e","v")'})
+        wbe.value('Sheet1!C1')
+        from . import values as V
+        shorts = [q for q in ctx.mod('xlfunctions.xlerrors').classes if q.endswith('ExcelError') and q != 'ExcelError']
+        inst = next((V.error(ctx, q) for q in shorts if V.error(ctx, q).f.get('value') == code), None)
+        if inst is None:
+            raise Unmodelled(f'no error class with the code {code}')
+        out = wbe._run(ctx.mod('evaluator'), {'e': wbe.evaluator(), 'x': inst}, 'return e.set_cell_value("Sheet1!B1", x)')
+        if out.end != 'return':
+            raise Unmodelled(f'set_cell_value with an error instance ends in {out.end} {out.value!r}')
+        err = ('error', code)
+        for a, w in (('C1', err), ('C2', err), ('C3', ('Boolean', True)), ('C4', ('Boolean', code == '#N/A')), ('C5', err), ('C6', ('Text', 'e'))):
+            got = wbe.value('Sheet1!' + a)
+            if isinstance(got, tuple) and got and got[0] == 'error-class':
+                got = ('error', W.error_code(ctx, got[1]))
+            if isinstance(got, bool):
+                got = ('Boolean', got)
+            n += 1
+            ctx.expect(got == w, anchor, f'{code} set into an input cell through set_cell_value: {a}',
+                       f'after set_cell_value("Sheet1!B1", the error value {code}), {a} evaluates to {got!r}, expected {w!r}: an error is a value wherever it comes from')
+    ctx.floor(250, 'error cells')
 
 
 RULES = [
